@@ -15,7 +15,12 @@ THEOREMS = ["Claripy.Props.C14.C14_records_isolated", "Claripy.Props.C14.C14_bat
             "Claripy.Props.C14.C14_cacheless_tree_isolated", "Claripy.Props.C14.C14_shared_objects_finalized",
             "Claripy.Props.C14.C14_step_keeps_discipline", "Claripy.Props.C14.C14_query_leaves_foreign_frames",
             "Claripy.Solver.tinv_step", "Claripy.Solver.tinv_append", "Claripy.Solver.cl_step_branch",
-            "Claripy.Solver.qstep_after_query", "Claripy.Solver.QStep.trans"]
+            "Claripy.Solver.qstep_after_query", "Claripy.Solver.QStep.trans",
+            # the caching class Solver: corollaries of C11_solver_refines / TInvS
+            "Claripy.Props.C14.C14_solver_tree_isolated", "Claripy.Props.C14.C14_solver_op_isolated",
+            "Claripy.Props.C14.C14_solver_sibling_unaffected", "Claripy.Props.C14.C14_solver_later_answers",
+            "Claripy.Props.C14.C14_solver_shared_objects_finalized", "Claripy.Props.C14.C14_solver_step_keeps_discipline",
+            "Claripy.Solver.sol_reach", "Claripy.Solver.tinvS_step", "Claripy.Solver.tinvS_append"]
 MODELLED = ["Solver", "SolverCacheless", "SolverStrings"]
 OTHERS = ["SolverComposite", "SolverHybrid", "SolverReplacement"]
 WEIGHTS = {"add": 24, "satisfiable": 8, "eval": 14, "batch_eval": 4, "min": 9, "max": 9, "solution": 6, "is_true": 1,
